@@ -478,6 +478,28 @@ fn index_width_cases(coin: &'static Coin, only: Option<usize>) -> Vec<(String, C
         cb.push_raw(vec![coinbase(4, 24, vec![TxOut { value: 0, script: script::op_return(b"coinbase without address") }]), data_only, s4, s5]);
         v.push(("blocks without a leading coinbase (none / second / two of them) and transactions without any address in front of spending ones".to_string(), cb));
     }
+    // ranges that end with NOTHING to list: every address-bearing output of the range is spent inside it / no output of the range
+    // carries an address at all. The dump is then the header line alone (the chains begin at height 7, the genesis output is
+    // not part of them).
+    for variant in 0..2u8 {
+        if !want(&v) {
+            skip(&mut v);
+            continue;
+        }
+        use refmodel::chain::coinbase;
+        let mut cb = ChainBuilder::at(coin, 7);
+        let data = |t: &[u8]| TxOut { value: 0, script: script::op_return(t) };
+        if variant == 0 {
+            let c1 = coinbase(7, 31, vec![TxOut { value: 50, script: script::p2pkh(&script::h20(190)) }, TxOut { value: 0, script: script::p2pkh(&script::h20(191)) }]);
+            let id = c1.txid();
+            cb.push_raw(vec![c1]);
+            cb.push_raw(vec![coinbase(8, 32, vec![data(b"no address")]), Tx { version: 1, segwit: false, inputs: vec![TxIn::spend(id, 0), TxIn::spend(id, 1)], outputs: vec![data(b"burnt")], locktime: 0, wide: 0 }]);
+        } else {
+            cb.push_raw(vec![coinbase(7, 33, vec![data(b"a"), TxOut { value: 5, script: vec![0x51] }])]);
+            cb.push_raw(vec![coinbase(8, 34, vec![TxOut { value: 7, script: script::multisig(1, &[&script::key33(9)], 1) }])]);
+        }
+        v.push((format!("nothing left to list ({}): header line only", if variant == 0 { "everything spent again" } else { "no output with an address" }), cb));
+    }
     // a big UTXO set: 250 000 unspent outputs over 40 addresses (5 transactions of 50 000 outputs), 10 000 of them spent again
     if !want(&v) {
         skip(&mut v);
@@ -564,9 +586,10 @@ pub fn run(prop: &str) -> Report {
                 Item::W(cname, k) => {
                     let cn = coin(cname);
                     let (label, cb) = index_width_cases(cn, Some(*k)).remove(*k);
-                    let world = World::simple(cn, &cb.blocks, 0);
+                    // (a special world may begin above height 0: it is then read with --start at its first height)
+                    let world = World::simple(cn, &cb.blocks, cb.first_height);
                     let all = cb.mblocks();
-                    run_and_judge(prop, c08, &wk, cn, &world, &all, None, &label, acc, false);
+                    run_and_judge(prop, c08, &wk, cn, &world, &all, if cb.first_height > 0 { Some(cb.first_height) } else { None }, &label, acc, false);
                     acc.count("index-width-sweep", 1);
                 }
                 Item::Hist(cname, h) => {
